@@ -4,7 +4,7 @@
    initial notifier population satisfying [wfH] (stored reference counts positive, at most one user
    notifier per identity on a list — both are invariants, [wf_is_invariant]) and every history. *)
 From Coq Require Import List Arith Bool PeanoNat Permutation.
-From TV Require Import C09.Model C09.Dyn C09.Law C09.Proofs C09.LawProofs C09.DynProofs C09.DynCount C09.DynSlot.
+From TV Require Import C09.Model C09.Dyn C09.Law C09.Proofs C09.LawProofs C09.DynProofs C09.DynCount C09.DynSlot C09.DynAdd.
 Import ListNotations.
 
 Theorem wf_is_invariant : forall h ops s tr s',
@@ -208,6 +208,35 @@ Theorem mutation_calls_once_iff_matched : forall (h hrun : heap) R H s sg t olds
 Proof. exact slot_calls. Qed.
 Print Assumptions mutation_calls_once_iff_matched.
 
+(* ... and with obj.add_trait (Dyn.DAddTrait) as well (DynAdd.v): registrations with an OPTIONAL node on a name that is
+   not yet a trait hook nothing below that node; when the trait is added (possibly already holding a value), the
+   trait_added maintainers complete every live registration naming it, so that the hooks again are exactly what the
+   live registrations plan on the NEW heap.  The name must be new on a HasTraits object and the object's new trait
+   not reachable from the value it starts with. *)
+Theorem hooks_are_expected_under_add_trait : forall ops d R d' R' tr,
+  dstate_inv d R -> admissible_run3 d R ops -> crun3 d R ops = (d', R', tr) ->
+  dstate_inv d' R' /\ forall c ob, In (c, ob) tr -> quiet_outcome3 c ob.
+Proof. exact dyn3_hooks_are_expected. Qed.
+Print Assumptions hooks_are_expected_under_add_trait.
+
+Theorem add_trait_completes_the_registrations : forall h x0 f0 v,
+  has_trait h x0 f0 = false -> is_ht h x0 = true -> aacyclic h x0 f0 v ->
+  forall R H s, dinv h H R -> flags_ok (add_trait_h h x0 f0 v) R -> dead_handlers s = [] -> dead_objs s = [] ->
+  exists H' calls,
+    run_ta_notifiers (add_trait_h h x0 f0 v) s x0 f0 (H (x0, F_TA)) H [] = (H', calls, None)
+    /\ dinv (add_trait_h h x0 f0 v) H' R.
+Proof. exact add_trait_step. Qed.
+Print Assumptions add_trait_completes_the_registrations.
+
+(* who is called by add_trait: handler k exactly once iff a live registration of k matches the object's trait_added *)
+Theorem add_trait_calls_once_iff_matched : forall (h hrun : heap) R H s x f H' calls k,
+  dinv h H R -> wfH H -> dead_handlers s = [] -> dead_objs s = [] ->
+  run_ta_notifiers hrun s x f (H (x, F_TA)) H [] = (H', calls, None) ->
+  (ncalls k calls <= 1) /\
+  (ncalls k calls = 1 <-> exists g y, In (k, g, y) R /\ l_matched h g y (x, F_TA) = true).
+Proof. exact add_trait_calls. Qed.
+Print Assumptions add_trait_calls_once_iff_matched.
+
 (* ---------- non-vacuity ---------- *)
 (* object 0 has kids = list 5 = [1; 2; 3], f = 1, g = 2; objects 1, 2 have `value` (field 2), object 3
    has not.  Fields: 2 value, 3 f, 4 g, 5 kids, 9 nonexist. *)
@@ -317,6 +346,37 @@ Proof.
     + apply Permutation_sym. apply (Permutation_cons_append [1; 2] 3).
     + apply perm_swap.
     + intros ch y [Hy|Hy]; apply ex_item_unreachable; vm_compute in Hy; intuition.
+    + intros k g x Hin. vm_compute in Hin. destruct Hin as [E|[]]. inversion E; subst. vm_compute. reflexivity.
+    + vm_compute. left. reflexivity.
+  - vm_compute. split; reflexivity.
+Qed.
+
+(* non-vacuity with add_trait: object 0 observes the optional, not yet defined trait 9 and below it `value`; nothing is
+   hooked on object 1 until the trait is added holding object 1; then the handler follows object 1; the removal
+   succeeds on the new heap and leaves nothing *)
+Definition g_opt9_value := G (NNamed 9 true true) [g_value].
+Example ex_added_unreachable : forall ch, avisits ex_heap 0 9 ch 1 = false.
+Proof.
+  intros [n cs]. cbn [avisits].
+  assert (ahits 0 9 n 1 = false) as -> by (destruct n; reflexivity).
+  assert (nexts ex_heap n 1 = []) as ->.
+  { destruct n as [f nt opt|ck nt opt]; unfold nexts; cbn;
+      repeat (match goal with |- context [if ?b then _ else _] => destruct b end; try reflexivity). }
+  cbn. induction cs; cbn; auto.
+Qed.
+Example dyn_add_trait_history_nontrivial :
+  let d0 := mkD ex_heap s0 in
+  let ops := [C2 (C1 (CReg 0 7 0 g_opt9_value)); C2 (C1 (CChange 1 2)); CAdd 0 9 [1];
+              C2 (C1 (CChange 1 2)); C2 (C1 (CUnreg 0 7 0 g_opt9_value)); C2 (C1 (CChange 1 2))] in
+  dstate_inv d0 [] /\ admissible_run3 d0 [] ops /\
+  let '(d', R', tr) := crun3 d0 [] ops in
+  R' = [] /\ map (fun p => (o_out (snd p), length (o_calls (snd p)))) tr
+             = [(None, 0); (None, 0); (None, 0); (None, 1); (None, 0); (None, 0)].
+Proof.
+  split; [|split].
+  - split; [split; [intros o; reflexivity|split; [intros; reflexivity|intros ? ? ? []]]|split; reflexivity].
+  - cbn [admissible_run3 admissible3 admissible2 admissible]. repeat split; try exact I.
+    + intros ch y [<-|[]]. apply ex_added_unreachable.
     + intros k g x Hin. vm_compute in Hin. destruct Hin as [E|[]]. inversion E; subst. vm_compute. reflexivity.
     + vm_compute. left. reflexivity.
   - vm_compute. split; reflexivity.
